@@ -9,6 +9,7 @@ mod c07;
 mod c08;
 mod c09;
 mod c10;
+mod c11;
 mod c12;
 mod c13;
 mod c14;
@@ -99,6 +100,7 @@ fn main() {
         "C08" => c08::main(tier, replay),
         "C09" => c09::main(tier, replay),
         "C10" => c10::main(tier, replay),
+        "C11" => c11::main(tier, replay),
         "C12" => c12::main(tier, replay),
         "C13" => c13::main(tier, replay),
         "C14" => c14::main(tier, replay),
